@@ -8,7 +8,7 @@ body, generic over the scalar class `Gwcs.ANum` (instances: Float for execution,
 
 Supported: assignments (names / tuple unpacking), augmented assignments (rebinding), + - * / and
 `** <int literal>`, unary minus, the listed np.* calls, `np.broadcast_arrays` (identity per element), `PARAM[0]` for declared parameter triples,
-calls to other whitelisted evaluates, `for` over a literal tuple with a straight-line body (unrolled), `return` of an expression or tuple.  `if isinstance(.., Quantity)`
+calls to other whitelisted evaluates, `for` over a literal tuple with a straight-line body (unrolled), calls to module-level one-expression helpers (inlined), `return` of an expression or tuple.  `if isinstance(.., Quantity)`
 takes the plain-number (else) branch; an `if` whose body only raises is skipped.  Both are listed in
 the report so nothing is dropped silently.
 """
@@ -48,14 +48,18 @@ def nm(s):
 
 
 class Tr:
-    def __init__(self, fname, kinds, notes):
+    def __init__(self, fname, kinds, notes, helpers=None):
         self.fname, self.kinds, self.notes = fname, kinds, notes
+        self.helpers = helpers or {}
+        self.subst = {}
 
     def bad(self, node, why):
         raise Untranslatable("untranslatable construct at %s:%d: %s" % (self.fname, getattr(node, "lineno", 0), why))
 
     def expr(self, e):
         if isinstance(e, ast.Name):
+            if e.id in self.subst:
+                return self.subst[e.id]
             return nm(e.id)
         if isinstance(e, ast.Constant) and isinstance(e.value, (int, float)) and not isinstance(e.value, bool):
             v = e.value
@@ -90,6 +94,14 @@ class Tr:
                 return "(%s)" % ", ".join(self.expr(a) for a in e.args)
             if isinstance(f, ast.Attribute) and f.attr == "evaluate" and isinstance(f.value, ast.Name) and f.value.id in CALLS and not e.keywords:
                 return "(%s %s)" % (CALLS[f.value.id], " ".join(self.expr(a) for a in e.args))
+            if isinstance(f, ast.Name) and f.id in self.helpers and not e.keywords:
+                # a module-level helper `def h(a, b): return <expr>`: inlined with its arguments substituted
+                hd = self.helpers[f.id]
+                if len(hd.args.args) == len(e.args):
+                    sub = Tr(self.fname, self.kinds, self.notes, self.helpers)
+                    sub.subst = {a.arg: self.expr(x) for a, x in zip(hd.args.args, e.args)}
+                    self.notes.append("%s:%d helper %s() inlined" % (self.fname, e.lineno, f.id))
+                    return sub.expr(hd.body[-1].value)
             self.bad(e, "call %s" % ast.unparse(f))
         if isinstance(e, ast.Subscript):
             if isinstance(e.value, ast.Name) and self.kinds.get(e.value.id) == "triple" and isinstance(e.slice, ast.Constant) and e.slice.value == 0:
@@ -157,7 +169,14 @@ def translate():
         args = [a.arg for a in fn.args.args if a.arg != "self"]
         if args != list(kinds):
             raise Untranslatable("untranslatable construct at %s:%d: evaluate signature %s != expected %s" % (fname, fn.lineno, args, list(kinds)))
-        tr = Tr("gwcs/" + fname, kinds, notes)
+        # module-level helpers of the form `def h(a, b): [docstring] return <expr>` may be called from an evaluate (inlined)
+        helpers = {}
+        for node in tree.body:
+            if isinstance(node, ast.FunctionDef):
+                body = [b for b in node.body if not (isinstance(b, ast.Expr) and isinstance(b.value, ast.Constant) and isinstance(b.value.value, str))]
+                if len(body) == 1 and isinstance(body[0], ast.Return) and body[0].value is not None and not node.args.kwonlyargs and not node.args.vararg:
+                    helpers[node.name] = ast.FunctionDef(name=node.name, args=node.args, body=body, decorator_list=[], lineno=node.lineno)
+        tr = Tr("gwcs/" + fname, kinds, notes, helpers)
         lines = []
         if not tr.block(fn.body, lines):
             raise Untranslatable("untranslatable construct at %s:%d: no return" % (fname, fn.lineno))
